@@ -32,7 +32,7 @@ ASSUMPTIONS = [
     "a 20 s alarm per case reports 'inconclusive' (counted), never a violation",
 ]
 BUDGET = {"quick": (16, 600), "thorough": (16, 15000)}
-N_MUT = 27
+N_MUT = 29
 
 
 def strategy(tier, phase):
@@ -287,6 +287,42 @@ def mutate(mp, muts):
                     sg.input.add(name=nm)
                 else:
                     sg.initializer.add(name=nm, data_type=1, dims=[1], float_data=[1.0])
+            elif kind == 27 and nodes:  # a sharding annotation naming one of the node's own inputs/outputs - also a dangling input
+                n, _ = nodes[a % len(nodes)]
+                names = [x for x in list(n.input) + list(n.output) if x]
+                if b % 3 == 0 or not names:
+                    n.input.append(f"dangling_in_{a}")
+                    names = [f"dangling_in_{a}"]
+                dc = n.device_configurations.add()
+                dc.configuration_id = ["cfg_a", "missing_cfg"][b % 2]
+                if b % 2 == 0 and not any(c.name == "cfg_a" for c in mp.configuration):
+                    mp.configuration.add(name="cfg_a", num_devices=2)
+                sp = dc.sharding_spec.add()
+                sp.tensor_name = names[(a + b) % len(names)]
+                sp.device.extend([0, 1])
+                if b % 4 == 0:
+                    dc.pipeline_stage = b % 3
+            elif kind == 28 and nodes:  # a nested node output takes the name of a value of an enclosing graph, and is annotated
+                nested = [(n, g) for n, g in nodes if g is not mp.graph and isinstance(g, onnx.GraphProto) and any(n.output)]
+                outer_names = [o for n in mp.graph.node for o in n.output if o] + [i.name for i in mp.graph.input if i.name] + [t.name for t in mp.graph.initializer if t.name]
+                if not nested or not outer_names:
+                    continue
+                n, g = nested[a % len(nested)]
+                j = [k_ for k_, o in enumerate(n.output) if o][0]
+                old_name, new_name = n.output[j], outer_names[b % len(outer_names)]
+                n.output[j] = new_name
+                for m_ in g.node:  # consumers inside the same graph follow the rename
+                    for k_, i_ in enumerate(m_.input):
+                        if i_ == old_name:
+                            m_.input[k_] = new_name
+                for o_ in g.output:
+                    if o_.name == old_name:
+                        o_.name = new_name
+                dc = n.device_configurations.add()
+                dc.configuration_id = "cfg_a"
+                if not any(c.name == "cfg_a" for c in mp.configuration):
+                    mp.configuration.add(name="cfg_a", num_devices=2)
+                dc.sharding_spec.add(tensor_name=new_name)
             else:
                 continue
             applied += 1
@@ -373,6 +409,9 @@ def check_proto(mp, label):
             errs = invariants.check_all(u)
             if errs:
                 fails.append((f"inconsistent-ir/{errs[0][0]}", f"{label}: from_proto returned an IR with {errs[0][1]}"))
+            bad = _detached_sharding(model)
+            if bad:
+                fails.append(("inconsistent-ir/sharding-spec-detached", f"{label}: {bad}"))
             try:
                 p1 = ir.to_proto(model)
             except _Timeout:
@@ -400,6 +439,24 @@ def check_proto(mp, label):
         signal.alarm(0)
         signal.signal(signal.SIGALRM, old)
     return fails, model, stage
+
+
+def _detached_sharding(model):
+    """A sharding annotation that carries the name of one of its node's own inputs/outputs must be bound to that very
+    value object: a name means one value inside one node (the annotation and the input link cannot disagree)."""
+    graphs = [model.graph] + [f.graph for f in model.functions.values()]
+    for g in graphs:
+        for n in g.all_nodes():
+            ios = [v for v in list(n.inputs) + list(n.outputs) if v is not None]
+            for dc in n.device_configurations or ():
+                for spec in dc.sharding_specs:
+                    v = spec.value
+                    if v is None or not v.name:
+                        continue
+                    same_name = [x for x in ios if x.name == v.name]
+                    if same_name and not any(x is v for x in ios):
+                        return f"node {n.name!r} ({n.op_type}): sharding annotation for {v.name!r} is bound to another Value object than the node's own input/output of that name"
+    return None
 
 
 def _ir_tensors(model):
